@@ -11,6 +11,9 @@ def assoc_table(sp):
         cls = a['name']
         if names.count(cls) > 1:
             cls = f"{a['name']}_{a['leftAsset']}_{a['rightAsset']}"
+            if any(o['cls'] == cls for o in out):
+                # same name and same asset types: the field names tell the classes apart
+                cls += f"_{a['leftField']}_{a['rightField']}"
         out.append({'cls': cls, 'lf': a['leftField'], 'rf': a['rightField'],
                     'lt': a['leftAsset'], 'rt': a['rightAsset'],
                     'lmax': a['leftMultiplicity']['max'], 'rmax': a['rightMultiplicity']['max']})
@@ -64,16 +67,25 @@ def enum_models(lang, sp, types, n_max, l_max, two_member=True, ordered_types=Fa
 def build(fx, pm, name='m', defenses=None, reverse_links=False):
     """Real Model from a PlainModel through the public API. -> (model, {name: asset})"""
     from maltoolbox.model import Model
+    from .common import Violation
     m = Model(name, fx.factory)
     objs = {}
-    for n, t in pm.assets:
-        kw = dict((defenses or {}).get(n, {}))
-        o = getattr(fx.ns, t)(name=n, **kw)
-        m.add_asset(o)
-        objs[n] = o
-    links = list(pm.links)
-    if reverse_links:
-        links.reverse()
-    for cls, lf, L, rf, R in links:
-        m.add_association(getattr(fx.ns, cls)(**{lf: [objs[x] for x in L], rf: [objs[x] for x in R]}))
+    # every model handed to this function is valid in its language: failing to build it is a verdict, not a crash
+    try:
+        for n, t in pm.assets:
+            kw = dict((defenses or {}).get(n, {}))
+            o = getattr(fx.ns, t)(name=n, **kw)
+            m.add_asset(o)
+            objs[n] = o
+        links = list(pm.links)
+        if reverse_links:
+            links.reverse()
+        for cls, lf, L, rf, R in links:
+            m.add_association(getattr(fx.ns, cls)(**{lf: [objs[x] for x in L], rf: [objs[x] for x in R]}))
+    except RecursionError:
+        raise
+    except Exception as e:  # noqa: BLE001
+        raise Violation(f'valid_model_rejected:{type(e).__name__}',
+                        f'a model that is valid in its language could not be built through the API: {str(e)[:300]}',
+                        case={'model': pm.describe()})
     return m, objs
